@@ -61,12 +61,17 @@ func (s *ContextScope) Stop() {
 
 // Err return cumulative error if the scope context contains any error
 func (s *ContextScope) Err() error {
-	return goaterr.ToError(s.errors)
+	return goaterr.ToError(s.Errors())
 }
 
 // Errors return scope errors
 func (s *ContextScope) Errors() []error {
-	return s.errors
+	s.errorsMU.Lock()
+	defer s.errorsMU.Unlock()
+	if len(s.errors) == 0 {
+		return nil
+	}
+	return append([]error{}, s.errors...)
 }
 
 // AppendErrors append many errors to scope (skip nil errors)
